@@ -264,7 +264,22 @@ fn failed(o: &C19Outcome) -> Option<String> {
     if let Some(e) = &o.codec_error {
         return Some(format!("an intact file does not round-trip: {e}"));
     }
+    // second format: JSON must be exact wherever it can represent the value
+    if o.json_exact == Some(false) {
+        return Some("restored value differs from the original at `<json round trip>`: the JSON round trip succeeds but the restored value is observably different".into());
+    }
+    if let Some(n) = &o.json_note {
+        if !json_exempt(n) {
+            return Some(format!("restored value differs from the original at `<json round trip>`: {n}"));
+        }
+    }
     None
+}
+
+/// JSON cannot represent non-finite floats (serde_json writes `null` and refuses to read it
+/// back as a float) nor maps with non-string keys: a format limitation, not a linfa defect
+fn json_exempt(note: &str) -> bool {
+    note.contains("invalid type: null") || note.contains("key must be a string")
 }
 
 fn c19_job(entry: &str, p: P, a: &Env, b: &Env, storage_seed: u64) -> Job {
@@ -338,6 +353,7 @@ pub fn check(tier: &str, seed: u64, only: Option<&str>) -> i32 {
     let (mut eq_checked, mut json_exact, mut json_inexact, mut json_unsupported, mut env_dep, mut bytes) = (0u64, 0u64, 0u64, 0u64, 0u64, 0u64);
     let mut env_dep_entries: BTreeSet<String> = BTreeSet::new();
     let mut json_inexact_entries: BTreeSet<String> = BTreeSet::new();
+    let mut json_notes: BTreeSet<String> = BTreeSet::new();
     let mut failing: Vec<(usize, String)> = Vec::new();
     let mut by_crate: BTreeMap<String, u64> = BTreeMap::new();
     for (i, r) in results.iter().enumerate() {
@@ -365,7 +381,12 @@ pub fn check(tier: &str, seed: u64, only: Option<&str>) -> i32 {
                 json_inexact += 1;
                 json_inexact_entries.insert(e.name.clone());
             }
-            None => json_unsupported += 1,
+            None => {
+                json_unsupported += 1;
+                if let Some(n) = &o.json_note {
+                    json_notes.insert(format!("{}: {}", e.name, n.chars().take(120).collect::<String>()));
+                }
+            }
         }
         if o.env_dependent.is_some() {
             env_dep += 1;
@@ -461,7 +482,7 @@ pub fn check(tier: &str, seed: u64, only: Option<&str>) -> i32 {
             "storage_faults_fired": {"writes": st.writes, "short_writes": st.short_writes, "write_interrupts": st.write_interrupts, "reads": st.reads, "short_reads": st.short_reads, "read_interrupts": st.read_interrupts, "one_byte_transfers": st.one_byte_transfers},
             "bytes_persisted": bytes,
             "partial_eq_checked": eq_checked,
-            "json_second_format": {"exact": json_exact, "not_exact": json_inexact, "not_representable_or_failed": json_unsupported, "entries_not_exact": json_inexact_entries, "note": "informational: the statement asks for JSON only where exact"},
+            "json_second_format": {"exact": json_exact, "not_exact": json_inexact, "not_representable_or_failed": json_unsupported, "entries_not_exact": json_inexact_entries, "not_representable_notes": json_notes, "note": "a JSON round trip that succeeds with a different value, or fails for a reason other than JSON's own limits (non-finite floats, non-string map keys), is a violation"},
             "environment_dependent_originals_(C20_subject)": {"round_trips": env_dep, "entries": env_dep_entries},
             "out_of_contract_probes": probes,
             "violating_round_trips": failing.len(),
@@ -471,7 +492,7 @@ pub fn check(tier: &str, seed: u64, only: Option<&str>) -> i32 {
             "simulated_components": ["the file (short writes/reads down to one byte, EINTR)", "process exit and restart into another environment (hash seeds, pool, clock)"],
         }),
         assumptions: vec![
-            "bincode is the deciding lossless format; JSON results are informational".into(),
+            "bincode is the deciding lossless format; JSON (serde_json with float_roundtrip) is required to be exact except for non-finite floats and non-string map keys, which it cannot represent".into(),
             "torn and bit-flipped files are outside the statement: outcomes are counted, never reported".into(),
         ],
         wall_s: wall,
